@@ -271,7 +271,7 @@ pub fn run(run: &Run) {
     run.set_rule(RULE);
     prop_search(
         run,
-        Search { check: "admission-e2e", cases: run.tier.pick(1500, 12000), workers: 8, max_shrink_iters: 80 },
+        Search { check: "admission-e2e", cases: run.tier.pick(1500, 60000), workers: 8, max_shrink_iters: 80 },
         case_strategy,
         |c| judge(|| exec(c), false, "C18:e2e:hang"),
         |c| serde_json::to_value(c).unwrap(),
